@@ -377,7 +377,7 @@ func (wsEngine) Gen(t *rapid.T, tier string) any {
 		PingMs:        rapid.SampledFrom([]int{0, 5000, 60000}).Draw(t, "ping"),
 		Rate:          rapid.SampledFrom([]float64{10, 100, 1000}).Draw(t, "rate"),
 		Burst:         rapid.SampledFrom([]int{1, 10}).Draw(t, "burst"),
-		MaxLen:        100000,
+		MaxLen:        rapid.SampledFrom([]int64{100000, 100000, 4000}).Draw(t, "maxlen"),
 	}
 	c.Conn.Chunk = rapid.SampledFrom([]int{1, 7, 16, 64, 512, 4096, 65536}).Draw(t, "chunk")
 	maxF := 8
@@ -408,6 +408,21 @@ func (wsEngine) Gen(t *rapid.T, tier string) any {
 			}
 		}
 		c.Frames = append(c.Frames, wsFrame{Kind: "valid", Payload: marshalNoEscape(msgWire(m)), Deliverable: true, Msg: m})
+	}
+	if c.Opt.MaxLen == 4000 && rapid.IntRange(0, 1).Draw(t, "atlimit") == 0 {
+		// a valid, authentic EVENT whose frame is exactly as long as the
+		// configured limit allows, or a little shorter
+		target := int(c.Opt.MaxLen) - rapid.SampledFrom([]int{0, 0, 1, 2, 19}).Draw(t, "below")
+		e0 := simrt.EvSpec{Author: rapid.IntRange(0, 3).Draw(t, "lauthor"), Kind: 1, CreatedAt: 1700000000, Sign: true}
+		e := e0
+		e.Content = strings.Repeat("x", target-len(marshalNoEscape(msgWire(&simrt.Msg{T: "EVENT", Ev: &e0}))))
+		m := &simrt.Msg{T: "EVENT", Ev: &e}
+		f := wsFrame{Kind: "valid", Payload: marshalNoEscape(msgWire(m)), Deliverable: true, Msg: m}
+		if len(f.Payload) != target {
+			panic("frame padding")
+		}
+		at := rapid.IntRange(0, len(c.Frames)).Draw(t, "limitpos")
+		c.Frames = append(c.Frames[:at], append([]wsFrame{f}, c.Frames[at:]...)...)
 	}
 	for i := 0; i < 3; i++ {
 		c.Events = append(c.Events, simrt.EvSpec{Author: i, Kind: 1, CreatedAt: int64(100 + i), Content: wsContents[(i*3+1)%len(wsContents)], Sign: true,
@@ -590,6 +605,11 @@ func (wsEngine) Exec(t *testing.T, cc any) *simrt.Result {
 			// hand-written cases (known-findings probes) give the message only
 			if len(c.Frames[i].Payload) == 0 && c.Frames[i].Msg != nil {
 				c.Frames[i].Payload = marshalNoEscape(msgWire(c.Frames[i].Msg))
+			}
+		}
+		for i := range c.Frames {
+			if int64(len(c.Frames[i].Payload)) >= c.Opt.MaxLen-32 {
+				st.Probe("frame_at_size_limit")
 			}
 		}
 		emit, emitWire := wsEmissions(c)
@@ -893,6 +913,8 @@ func contentClass(e *simrt.EvSpec) string {
 		s += strings.Join(t, "")
 	}
 	switch {
+	case len(e.Content) > 2000:
+		return "at-size-limit"
 	case strings.ContainsAny(s, "<>&"):
 		return "html"
 	case strings.ContainsAny(s, "  "):
